@@ -29,6 +29,20 @@ type VerifConfig struct {
 // VerifNewQueue constructs and starts a Queue exactly the way Init does after
 // configuration parsing (start → readDiskQueue).
 func VerifNewQueue(c VerifConfig) (*Queue, error) {
+	q, err := VerifPrepare(c)
+	if err != nil {
+		return nil, err
+	}
+	if err := q.start(c.MaxParallelism); err != nil {
+		return nil, err
+	}
+	return q, nil
+}
+
+// VerifPrepare builds the Queue without starting it, so that a harness keeps a
+// handle on the object even if VerifStart does not return (simulated crash
+// inside the start-up scan). Follow with VerifStart.
+func VerifPrepare(c VerifConfig) (*Queue, error) {
 	mod, err := NewQueue("", "queue", nil, nil)
 	if err != nil {
 		return nil, err
@@ -46,11 +60,14 @@ func VerifNewQueue(c VerifConfig) (*Queue, error) {
 	if c.Bounce != nil {
 		q.dsnPipeline = c.Bounce
 	}
-	if err := q.start(c.MaxParallelism); err != nil {
-		return nil, err
-	}
 	return q, nil
 }
+
+// VerifStart runs the start-up sequence of Init (time wheel, start-up scan).
+func (q *Queue) VerifStart(maxParallelism int) error { return q.start(maxParallelism) }
+
+// VerifStarted reports whether the time wheel exists (Close is safe).
+func (q *Queue) VerifStarted() bool { return q.wheel != nil }
 
 // VerifToSMTPErr exposes the conversion used for persisted per-recipient errors.
 func VerifToSMTPErr(err error) *smtp.SMTPError { return toSMTPErr(err) }
